@@ -145,11 +145,58 @@ pub fn run(ctx: &Ctx) {
             ctx.pass();
         }
     }
+    // ---- longer sequences of pseudo-random addresses (4..=7 members, incl. repeated members and members sharing long prefixes)
+    let count = if ctx.thorough { 3000u64 } else { 400 };
+    for seed in 1..=count {
+        let id = format!("random-addrs/{seed}");
+        if !ctx.want(&id) {
+            continue;
+        }
+        let mut s = seed.wrapping_mul(0x9E3779B97F4A7C15) | 1;
+        let n = 4 + (rnd(&mut s) % 4) as usize;
+        let mut seq: Vec<ContentAddress> = Vec::new();
+        for i in 0..n {
+            let mut a = [0u8; 32];
+            for b in a.iter_mut() {
+                *b = rnd(&mut s) as u8;
+            }
+            if i > 0 && rnd(&mut s) % 3 == 0 {
+                // share a prefix of random length with an earlier member (or repeat it entirely)
+                let j = (rnd(&mut s) % i as u64) as usize;
+                let keep = (rnd(&mut s) % 33) as usize;
+                a[..keep].copy_from_slice(&seq[j].0[..keep]);
+            }
+            seq.push(ContentAddress(a));
+        }
+        let mut salt = [0u8; 32];
+        for b in salt.iter_mut() {
+            *b = rnd(&mut s) as u8;
+        }
+        let mut sorted = seq.clone();
+        sorted.sort_by(|a, b| a.0.cmp(&b.0));
+        let mut chunks: Vec<&[u8]> = sorted.iter().map(|a| &a.0[..]).collect();
+        let want_set = sha(&chunks);
+        chunks.push(&salt[..]);
+        let want_contract = sha(&chunks);
+        let got_c = contract_addr::from_predicate_addrs(seq.clone(), &salt);
+        let got_s = solution_set_addr::from_solution_addrs(seq.clone());
+        if got_c.0 != want_contract || got_s.0 != want_set {
+            ctx.fail(&id, "contract / set address == SHA-256(sorted member addresses (++ salt)) for longer sequences",
+                format!("{} members (first bytes {:?}): contract_ok={} set_ok={}", n, seq.iter().map(|a| a.0[0]).collect::<Vec<_>>(), got_c.0 == want_contract, got_s.0 == want_set));
+        } else {
+            ctx.pass();
+        }
+    }
     // ---- predicate address / encoding / size for every shape up to the bound
     let (mn, me) = if ctx.thorough { (20, 70) } else { (9, 34) };
     let mut shapes: Vec<(usize, usize)> = (0..=mn).flat_map(|n| (0..=me).map(move |e| (n, e))).collect();
     // the documented size limits themselves
     shapes.extend([(1000, 1000), (1000, 0), (0, 1000), (999, 1000)]);
+    // larger sampled shapes
+    let mut ss = 0x1234_5678_9abc_def1u64;
+    for _ in 0..(if ctx.thorough { 600 } else { 120 }) {
+        shapes.push(((rnd(&mut ss) % 60) as usize, (rnd(&mut ss) % 200) as usize));
+    }
     for (n, e) in shapes {
         {
             let id = format!("predicate/{n}/{e}");
